@@ -410,7 +410,7 @@ def judge(ctx, tx, after, region, step, case):
     fl_ll = step.get('_lines')
     block_stmt = step['kind'] in ('stmt', 'handler', 'case') and (step.get('_last_type') or step['ttype']) in ('FunctionDef', 'AsyncFunctionDef', 'ClassDef', 'If', 'For', 'AsyncFor', 'While', 'With', 'AsyncWith', 'Try', 'TryStar', 'Match', 'ExceptHandler', 'match_case')
 
-    ext_strings = {bs[i] for i, t in enumerate(btoks) if e0 <= tx.tok_off(t)[0] < e1}
+    ext_strings = {bs[i] for i, t in enumerate(btoks) if min(e0, p0) <= tx.tok_off(t)[0] < max(e1, p1)}   # incl. the element's own parentheses: an identical twin next to it makes the token alignment ambiguous
 
     def score(i):
         """0 = explained ... 9 = unexplained"""
